@@ -142,6 +142,57 @@ theorem subst_injective_on_hex :
 
 theorem subst_expected : Gen.hashSubst = [('0', 'g'), ('1', 'h'), ('3', 'k'), ('a', 'm'), ('e', 't')] := by decide
 
+/-! ### more dictionary laws of layering (all lengths, all dictionaries) -/
+
+/-- merging a dictionary over itself changes no key's value -/
+theorem over_idem_get (a : Dict) (k : String) : dget k (over a a) = dget k a := by
+  rw [over_get]; cases dget k a <;> simp
+
+/-- an empty overlay is the identity (as a list, not only key by key) -/
+theorem over_nil_right (m : Dict) : over m [] = m := by
+  unfold over
+  simp only [List.filter_nil, List.append_nil]
+  induction m with
+  | nil => rfl
+  | cons kv r ih => obtain ⟨k, v⟩ := kv; simp [dget, ih]
+
+theorem foldSpec_append (d : Dict) (xs ys : List (Behavior × GObj)) :
+    foldSpec d (xs ++ ys) = foldSpec (foldSpec d xs) ys := by
+  induction xs generalizing d with
+  | nil => rfl
+  | cons o r ih =>
+    obtain ⟨b, g⟩ := o
+    cases b <;> simp [foldSpec, ih]
+
+/-- **last merge layer wins**: after any chain of layers, a further `merge` layer decides every key it has and
+    leaves the others at what the chain produced -/
+theorem foldSpec_snoc_merge (d : Dict) (ops : List (Behavior × GObj)) (g : GObj) (k : String) :
+    dget k (foldSpec d (ops ++ [(.merge, g)])) = (dget k g.data).orElse (fun _ => dget k (foldSpec d ops)) := by
+  rw [foldSpec_append]; simp [foldSpec, over_get]
+
+/-- **replace forgets**: after any chain of layers, a `replace` layer leaves exactly its own data -/
+theorem foldSpec_snoc_replace (d : Dict) (ops : List (Behavior × GObj)) (g : GObj) :
+    foldSpec d (ops ++ [(.replace, g)]) = g.data := by
+  rw [foldSpec_append]; simp [foldSpec]
+
+/-- a key no layer mentions keeps the base's value through any chain of merge layers -/
+theorem foldSpec_frame (d : Dict) (ops : List (Behavior × GObj)) (k : String)
+    (hm : ∀ o ∈ ops, o.1 = .merge) (hk : ∀ o ∈ ops, dget k o.2.data = none) :
+    dget k (foldSpec d ops) = dget k d := by
+  induction ops generalizing d with
+  | nil => rfl
+  | cons o r ih =>
+    obtain ⟨b, g⟩ := o
+    have hb : b = .merge := hm (b, g) List.mem_cons_self
+    subst hb
+    have hg : dget k g.data = none := hk (.merge, g) List.mem_cons_self
+    simp only [foldSpec]
+    rw [ih _ (fun o ho => hm o (List.mem_cons_of_mem _ ho)) (fun o ho => hk o (List.mem_cons_of_mem _ ho)), over_get, hg]
+    simp
+
+example : dget "a" (foldSpec [("a", "0"), ("z", "9")]
+    [(.merge, { data := [("a", "1")], needsHash := true, bin := [] }), (.merge, { data := [("b", "2")], needsHash := true, bin := [] })]) = some "1" := by decide
+
 /-- the suffix has exactly ten characters whenever the digest has at least ten -/
 theorem suffix_length (hex : String) (h : 10 ≤ hex.length) :
     ∃ s, encodeDigits Gen.hashSubst hex = .ok s ∧ s.length = 10 := by
